@@ -17,6 +17,9 @@ Inductive case :=
        (var_ends : list (option ((nat * nat) * (nat * nat)))) (counters : option (list nat))
 (* consecutive mutate_p calls from position a with the callback's decisions: the branch-by-branch
    model of the linked structure (Model/FastOps.v) must produce exactly the implementation's structure *)
+(* FastOps::new_from_ops on the (p, op) pairs of a string: the transcribed clear_and_install_ops must
+   produce the implementation's structure, which is the scan of the slots *)
+| Inst (nvars : nat) (pos : list (nat * op)) (after : fops)
 | Mut (nvars : nat) (nb : option nat) (before : slots) (a : nat) (decs : list (option (option op))) (after : fops).
 
 Definition on_eqb (a b : option nat) : bool :=
@@ -63,6 +66,9 @@ Definition check (c : case) : verdict :=
            | None => true
            | Some cs => forallb (fun '(b, c) => Nat.eqb c (count_bond b sl)) (combine (seq 0 (length cs)) cs)
            end)
+  | Inst nvars pos after =>
+      let F := clear_and_install (new_fops nvars None) pos in
+      of_bool (fops_eqb F after && fops_eqb F (build nvars None (slots_of pos)))
   | Mut nvars nb before a decs after =>
       (* the cursor is built by the transcribed fill_args_at_p (backward walk over the links), the
          mutations by the transcribed mutate_p; the world-line walks of the result must enumerate
